@@ -239,6 +239,7 @@ class SimStep:
 
         b = self.build
         b.running_cmds += 1
+        b.exec_count[self.label] = b.exec_count.get(self.label, 0) + 1
         b.event("cmd_start", job=self.job_i, step=self.label, running=b.running_cmds)
         rc, err = 0, ""
         try:
@@ -384,6 +385,40 @@ class SimStep:
                         message=str(exc)[-3000:])
             finally:
                 b.rpc_in_flight -= 1
+        elif a == "drop" and b.exec_count.get(self.label, 0) > 3:
+            # A step that is run again and again because of its own late requests would never
+            # end the build: from the fourth execution on the request is made the normal way.
+            await self.run_action({**action, "a": "raw"})
+        elif a == "drop":
+            # A request sent in full on a connection of its own that is closed without reading
+            # the reply (when: "sent" right after the write, "gate" one scheduling point later,
+            # "partial" after the first byte of the reply).
+            from stepup.core import rpc as _rpc
+
+            job = action.get("job", self.job_i)
+            args = [job, *action.get("args", [])]
+            b.dropped.append({"job": job, "name": action["name"], "args": action.get("args", []),
+                              "when": action.get("when", "sent"), "step": self.label})
+            b.event("drop", job=self.job_i, step=self.label, name=action["name"],
+                    args=action.get("args", []), when=action.get("when", "sent"))
+            reader, writer = await asyncio.open_unix_connection(self.sock)
+            try:
+                body = _rpc._encode_body(_rpc.RPCCall(action["name"], tuple(args), {}))
+                writer.write(_rpc._encode_message(1, body))
+                await writer.drain()
+                when = action.get("when", "sent")
+                if when == "gate":
+                    await b.ctl.gate({"job": self.job_i, "i": -1, "a": "dropwait", "step": self.label,
+                                      "action": action})
+                elif when == "partial":
+                    try:
+                        await asyncio.wait_for(reader.read(1), 5)
+                    except asyncio.TimeoutError:
+                        pass
+            finally:
+                writer.close()
+            if action.get("die"):
+                raise StepAbort(9, "died after sending a request")
         elif a == "gate":
             pass
         else:
@@ -436,6 +471,8 @@ class Build:
         self.ctl = ctl or Controller("free")
         self.ctl.build = self
         self.rpc_in_flight = 0
+        self.dropped = []
+        self.exec_count = {}
         self.running_cmds = 0
         self.monitors = list(monitors)
         self.returncode = None
@@ -603,6 +640,13 @@ def run_build(cfg=None, ctl=None, monitors=(), driver=None, env=None, timeout=60
             try:
                 done, pending = await asyncio.wait([serve_task], timeout=timeout)
                 if pending:
+                    dump = []
+                    for t in asyncio.all_tasks():
+                        frames = t.get_stack(limit=4)
+                        where = " < ".join(f"{os.path.basename(f.f_code.co_filename)}:{f.f_lineno}"
+                                           for f in reversed(frames))
+                        dump.append(f"{t.get_name()} @ {where}")
+                    build.watchdog_tasks = sorted(dump)
                     build.error = ("watchdog", f"serve() did not return within {timeout}s")
                     build.ctl.release_all()
                     if build.handler is not None:
